@@ -47,7 +47,12 @@ func (f *FileStream) ReadAll() ([]rune, error) {
 		}
 
 		if len(res) == 0 {
-			break
+			// no pending bytes: EOF. Otherwise an unfinished sequence is waiting for
+			// more bytes - read on (reaching EOF with pending bytes yields an error)
+			if len(f.encBuffer) == 0 {
+				break
+			}
+			continue
 		}
 		result = append(result, res...)
 	}
